@@ -892,4 +892,13 @@ theorem driver_ren_ok (prm : AlphaG.Hough.Params Float) (pts : Array (AlphaG.Hou
     exact List.mem_flatMap.2 ⟨p, Array.mem_toList_iff.2 hp, hx⟩
   exact rankFn_injOn _ c (mem c hc) c' (mem c' hc')
 
+/-- The context `clusterx` runs is `Good` as soon as `Float` satisfies the carrier laws (which
+cannot be proved in Lean and are sampled by the harness) and no input coordinate is NaN. -/
+theorem driver_ctx_good {E : Float → Float → Prop} (B : AlphaG.Hough.BeqPER floatOps)
+    (L : AlphaG.Hough.EqCompat floatOps E) (prm : AlphaG.Hough.Params Float)
+    (pts : Array (AlphaG.Hough.Point Float))
+    (hrefl : ∀ p ∈ pts, AlphaG.Hough.pointBeq floatOps p p = true) :
+    (AlphaG.Hough.ctxOf floatOps (rankFn (allCodes prm pts)) prm pts).Good :=
+  AlphaG.Hough.ctxOf_good floatOps _ prm pts B L hrefl (driver_ren_ok prm pts)
+
 end AlphaG.Driver.C15b
